@@ -36,6 +36,7 @@ use std::sync::atomic::AtomicUsize;
 use std::sync::atomic::Ordering;
 use uuid::Uuid;
 use vh_common::rand::rngs::StdRng;
+use vh_common::rand::seq::SliceRandom;
 use vh_common::rand::Rng;
 use vh_common::rand::SeedableRng;
 
@@ -256,7 +257,7 @@ fn build_raw(items: &[RItem]) -> (RawSnap, Vec<String>) {
 
 /// Applies a delta given in its integer / byte wire form to `from`.
 fn apply_wire(from: &RawSnap, w_ints: Option<&[i32]>, w_bytes: Option<&[u8]>, osz: &BTreeMap<u16, u32>, full: bool) -> Value {
-    let mut d = Delta::new();
+    let mut d = used_delta();
     let mut w: Vec<Warning> = Vec::new();
     let (rd, peak) = measured(|| {
         vh_common::guarded(CALL_MS, || match (w_ints, w_bytes) {
@@ -278,7 +279,7 @@ fn apply_wire(from: &RawSnap, w_ints: Option<&[i32]>, w_bytes: Option<&[u8]>, os
         let rew = delta_write_ints(&d, osz);
         o["rewrite"] = wres(&rew);
     }
-    let mut to = RawSnap::empty();
+    let mut to = used_raw();
     let mut w2: Vec<Warning> = Vec::new();
     let (ra, peak2) = measured(|| vh_common::guarded(CALL_MS, || to.read_with_delta(&mut w2, from, &d)));
     o["apply"] = json!(out_of(&ra));
@@ -287,6 +288,7 @@ fn apply_wire(from: &RawSnap, w_ints: Option<&[i32]>, w_bytes: Option<&[u8]>, os
     o["apply_peak"] = json!(peak2);
     if out_of(&ra) == "ok" {
         o["res"] = raw_obs(&to);
+        o["res_wi"] = wres(&snap_write_ints(&to));
         if full {
             o["res_follow"] = follow_raw(&to);
         }
@@ -300,13 +302,13 @@ fn follow_raw(s: &RawSnap) -> Value {
     let wb = snap_write_bytes(s);
     let mut o = json!({"wi": wres(&wi), "wb_out": wres(&wb)["out"]});
     if let Ok(x) = &wi {
-        let mut s2 = RawSnap::empty();
+        let mut s2 = used_raw();
         let mut w: Vec<Warning> = Vec::new();
         let r = vh_common::guarded(CALL_MS, || s2.read_from_ints(&mut w, x));
         o["re_i"] = json!({"out": out_of(&r), "warn": warns(&w), "items": raw_items_out(&s2)});
     }
     if let Ok(b) = &wb {
-        let mut s3 = RawSnap::empty();
+        let mut s3 = used_raw();
         let mut w: Vec<Warning> = Vec::new();
         let mut buf = Vec::new();
         let r = vh_common::guarded(CALL_MS, || s3.read(&mut w, &mut buf, b));
@@ -531,7 +533,7 @@ fn op_snap(c: &Value) -> Value {
     }
     let mut jc = Vec::new();
     if let (Ok(x), true) = (&wi, want("ints")) {
-        let mut t = Snap::empty();
+        let mut t = used_snap();
         let mut w: Vec<Warning> = Vec::new();
         let r = vh_common::guarded(CALL_MS, || t.read_from_ints(&mut w, x));
         jc.push(json!({"src": "ints", "out": out_of(&r), "warn": warns(&w), "obs": snap_obs(&t, &probes)}));
@@ -540,7 +542,7 @@ fn op_snap(c: &Value) -> Value {
         }
     }
     if let (Ok(x), true) = (&wb, want("bytes")) {
-        let mut t = Snap::empty();
+        let mut t = used_snap();
         let mut w: Vec<Warning> = Vec::new();
         let mut buf = Vec::new();
         let r = vh_common::guarded(CALL_MS, || t.read(&mut w, &mut buf, x));
@@ -583,11 +585,11 @@ fn op_snap(c: &Value) -> Value {
         let mut o = json!({"src": "delta", "out": "panic", "warn": [], "obs": {}});
         if rc.is_ok() {
             if let Ok(db) = delta_write_bytes(&d, &none) {
-                let mut d2 = Delta::new();
+                let mut d2 = used_delta();
                 let mut w: Vec<Warning> = Vec::new();
                 let r1 = vh_common::guarded(CALL_MS, || d2.read(&mut w, |_| None, &mut Unpacker::new(&db)));
                 if out_of(&r1) == "ok" {
-                    let mut t = Snap::empty();
+                    let mut t = used_snap();
                     let r = vh_common::guarded(CALL_MS, || t.read_with_delta(&mut w, &empty, &d2));
                     o = json!({"src": "delta", "out": out_of(&r), "warn": warns(&w), "obs": snap_obs(&t, &probes)});
                     if out_of(&r) == "ok" {
@@ -625,7 +627,7 @@ fn op_parse(c: &Value) -> Value {
     e["inb"] = json!(if is_bytes { wb.len() } else { 4 * wi.len() });
     if kind == "si" || kind == "sb" {
         // raw level
-        let mut raw = RawSnap::empty();
+        let mut raw = used_raw();
         let mut w: Vec<Warning> = Vec::new();
         let (r, peak) = measured(|| {
             vh_common::guarded(CALL_MS, || {
@@ -663,7 +665,7 @@ fn op_parse(c: &Value) -> Value {
             }
         }
         // Snap level (adds the registry check), then the follow-up operations of a client
-        let mut s = Snap::empty();
+        let mut s = used_snap();
         let mut w2: Vec<Warning> = Vec::new();
         let (r2, peak2) = measured(|| {
             vh_common::guarded(CALL_MS, || {
@@ -692,7 +694,7 @@ fn op_parse(c: &Value) -> Value {
         // the same through the Snap level (adds the registry check of the result)
         let mut sbase = Snap::empty();
         if sbase.read_from_ints(&mut libtw2_warn::Ignore, &ints(&c["base"])).is_ok() {
-            let mut d = Delta::new();
+            let mut d = used_delta();
             let mut w: Vec<Warning> = Vec::new();
             let r1 = vh_common::guarded(CALL_MS, || {
                 if is_bytes {
@@ -702,7 +704,7 @@ fn op_parse(c: &Value) -> Value {
                 }
             });
             if out_of(&r1) == "ok" {
-                let mut t = Snap::empty();
+                let mut t = used_snap();
                 let r2 = vh_common::guarded(CALL_MS, || t.read_with_delta(&mut w, &sbase, &d));
                 let mut o = json!({"out": out_of(&r2), "note": panic_note(&r2)});
                 if out_of(&r2) == "ok" {
@@ -720,7 +722,45 @@ fn op_parse(c: &Value) -> Value {
 thread_local! {
     static CUR_FILE: RefCell<Option<String>> = RefCell::new(None);
 }
+// ---------------------------------------------------------------- object reuse
+// A client reads into objects that held another snapshot / delta before (Storage keeps a free
+// list of Snaps, Manager one Delta). With a `prev` in the case every object that is the target of
+// a read first receives that previous content (whether or not it is accepted).
+thread_local! {
+    static PREV: RefCell<Option<Vec<i32>>> = RefCell::new(None);
+}
+fn used_raw() -> RawSnap {
+    let mut r = RawSnap::empty();
+    PREV.with(|p| {
+        if let Some(w) = p.borrow().as_ref() {
+            let _ = vh_common::catch(|| r.read_from_ints(&mut libtw2_warn::Ignore, w));
+        }
+    });
+    r
+}
+fn used_snap() -> Snap {
+    let mut s = Snap::empty();
+    PREV.with(|p| {
+        if let Some(w) = p.borrow().as_ref() {
+            let _ = vh_common::catch(|| s.read_from_ints(&mut libtw2_warn::Ignore, w));
+        }
+    });
+    s
+}
+fn used_delta() -> Delta {
+    let mut d = Delta::new();
+    PREV.with(|p| {
+        if p.borrow().is_some() {
+            // one deleted key, an update with data and an empty update (explicit sizes)
+            let w = [1, 2, 0, 77, 5, 1, 1, 9, 6, 2, 0];
+            let _ = vh_common::catch(|| d.read_from_ints(&mut libtw2_warn::Ignore, |_| None, &mut IntUnpacker::new(&w)));
+        }
+    });
+    d
+}
+
 fn run_case(c: &Value) -> Value {
+    PREV.with(|p| *p.borrow_mut() = if c["prev"].as_array().map(|a| !a.is_empty()).unwrap_or(false) { Some(ints(&c["prev"])) } else { None });
     let cs = c.to_string();
     // the case about to run, for the post-mortem of a process abort (allocation failure, ...)
     CUR_FILE.with(|f| {
@@ -729,12 +769,16 @@ fn run_case(c: &Value) -> Value {
         }
     });
     vh_common::set_case(&cs);
-    match c["op"].as_str().unwrap_or("") {
+    let mut e = match c["op"].as_str().unwrap_or("") {
         "pair" => op_pair(c),
         "snap" => op_snap(c),
         "parse" => op_parse(c),
         other => json!({"op": "unknown", "what": other}),
+    };
+    if c["prev"].is_array() {
+        e["prev"] = c["prev"].clone();
     }
+    e
 }
 
 // ---------------------------------------------------------------- random driver (direction B)
@@ -892,7 +936,20 @@ fn drive_pair(r: &mut StdRng) -> Value {
         5..=7 => osz06_zero(),
         _ => json!([]),
     };
-    json!({"op": "pair", "A": a, "B": b.into_values().collect::<Vec<_>>(), "osz": osz})
+    // insertion order: the order of the unsigned key, its reverse, or a shuffle
+    let mut a = a;
+    let mut b: Vec<Value> = b.into_values().collect();
+    for v in [&mut a, &mut b] {
+        match r.gen_range(0..4) {
+            0 => v.sort_by_key(|x| (x["t"].as_u64().unwrap(), x["i"].as_u64().unwrap())),
+            1 => {
+                v.sort_by_key(|x| (x["t"].as_u64().unwrap(), x["i"].as_u64().unwrap()));
+                v.reverse();
+            }
+            _ => v.shuffle(r),
+        }
+    }
+    json!({"op": "pair", "A": a, "B": b, "osz": osz})
 }
 fn rnd_uuid(r: &mut StdRng, pool: &mut Vec<Vec<i32>>) -> Vec<i32> {
     if !pool.is_empty() && r.gen_bool(0.6) {
@@ -917,7 +974,42 @@ fn rnd_adds(r: &mut StdRng, n: usize, upool: &mut Vec<Vec<i32>>, big: bool) -> V
     }
     v
 }
+/// Previous content of the objects a case reads into: nothing, or the integers of a snapshot
+/// (ordinal-only, with UUID types, hostile registry, larger or smaller than the new content)
+fn rnd_prev(r: &mut StdRng) -> Value {
+    match r.gen_range(0..6) {
+        0 | 1 => json!([]),
+        2 => {
+            let n = r.gen_range(0..12);
+            json!(wire_of(&rnd_raw(r, n, false, &mut Vec::new())))
+        }
+        3 => json!(wire_of(&rnd_registry_snapshot(r))),
+        _ => {
+            // well-formed: k UUID types with items
+            let k = r.gen_range(1..4);
+            let mut items: Vec<Value> = Vec::new();
+            for j in 0..k {
+                items.push(json!({"t": 0, "i": 0x4000 + j, "d": [rnd_val(r), j, 7, 7]}));
+                if r.gen_bool(0.8) {
+                    items.push(json!({"t": 0x4000 + j, "i": r.gen_range(0..3), "d": [rnd_val(r)]}));
+                }
+            }
+            for j in 0..r.gen_range(0..5) {
+                items.push(json!({"t": 5, "i": j, "d": [1, 2]}));
+            }
+            json!(wire_of(&items))
+        }
+    }
+}
+fn with_prev(r: &mut StdRng, mut c: Value) -> Value {
+    c["prev"] = rnd_prev(r);
+    c
+}
 fn drive_snap(r: &mut StdRng) -> Value {
+    let c = drive_snap_inner(r);
+    with_prev(r, c)
+}
+fn drive_snap_inner(r: &mut StdRng) -> Value {
     let n = match r.gen_range(0..100) {
         0..=7 => 0,
         8..=62 => r.gen_range(1..6),
@@ -1033,6 +1125,10 @@ fn rnd_registry_snapshot(r: &mut StdRng) -> Vec<Value> {
     m.into_iter().map(|((t, i), d)| json!({"t": t, "i": i, "d": d})).collect()
 }
 fn drive_parse(r: &mut StdRng) -> Value {
+    let c = drive_parse_inner(r);
+    with_prev(r, c)
+}
+fn drive_parse_inner(r: &mut StdRng) -> Value {
     let mut upool = Vec::new();
     let n_adds2 = r.gen_range(0..4);
     let adds2 = rnd_adds(r, n_adds2, &mut upool, false);
